@@ -129,6 +129,7 @@ def run(ctx):
         per_class[name] = dict(values=len(values), triples=len(triples), violating=nviol, modelled=name in modelled)
         if name in modelled:
             pairs = schemes.pairs_from(r, values[:300], 1500 if ctx.tier == "quick" else 30000)
+            pairs = dense.pairs(r, cls, 5 if ctx.tier == "quick" else 50, 500 if ctx.tier == "quick" else 8000) + pairs   # same base, small variations first
             nreq, d, _ = schemes.correspondence(ctx, cls, st.get("grammar", [])[:200], pairs)
             evals += nreq
             diffs.extend(d[:5])
